@@ -308,6 +308,8 @@ def safe_call(f, *a, **kw):
         return ("err", 5)
     except RecursionError:
         return ("err", 7)
+    except Exception as e:  # any other exception is a value too (never a harness crash)
+        return ("err", "exc:" + type(e).__name__)
 
 
 def res_decode(m: Any, f=lambda x: x) -> Any:
